@@ -18,6 +18,7 @@ PROPERTY = "C03"
 FUNCTIONS = ["DefaultResolver.resolve/process_arguments/process_options/process_default_sub_commands/process_default_commands/get_arguments_to_test/get_options_to_test/create_resolved_command",
              "ResolveResult", "ConsoleApplication.resolve_command/add_command", "Command.add_sub_command/named_sub_commands/default_sub_commands", "CommandCollection.get/__contains__", "CommandConfig.default/anonymous/hide/disable"]
 PART = {}
+EXTRA_BOUNDS = 'also: strictly parsing application (default command / default sub-command with a required argument), 16 lines, outcome = selected command or ITS parse error; commands with aliases added after the application resolved something, at top level and below a command.'
 BOUNDS = {"quick": "one command tree of depth 3 / fan-out <= 4 with aliases (incl. hyphenated names and an anonymous sub-command); 3 tokens (18 x 18 x 11 menu literals: names, aliases, unknown names, short/long options, '--'); top-level command named/default/anonymous; 4 symbolic attribute bits (two default sub-commands, default sub-sub-command, disabled sub-command); hidden and disabled top-level commands present",
           "thorough": "third token from the full 14-literal menu, hidden/disabled/command-string variants, 4-token lines below s/sv"}
 OUTSIDE = ["names longer than 2 characters, fan-out > 3, depth > 3", "which default wins when several default commands exist and only some parse (all commands are lenient here, so the first default is expected)",
